@@ -38,11 +38,12 @@ theorem readBf3_total_aes (chk : Bool) (key : Bytes) (text : Text.Str) :
 
 /-- BEC2 reader with any list of decryptors -/
 theorem readBec2_total (env : Bec2.Env) (hC : Bf3.CryptoTotal env.C) (ext : List Bec2.Encryptor)
-    (hE : Bec2.EccTotal env.E ext) (chk : Bool) (text : Text.Str) : Total (Entry.readBec2 env ext chk text) := by
+    (hE : Bec2.EccTotal env.E ext) (chk : Bool) (text : Text.Str) (ρ : Bytes) :
+    Total (Entry.readBec2 env ext chk text ρ) := by
   unfold Entry.readBec2
   refine Errs.bind (Text.parseText_total text) ?_
   intro r _
-  exact Errs.bind (Bec2.readBinary_total env hC ext hE _ _) (fun _ _ => Errs.ok _)
+  exact Errs.bind (Bec2.readBinary_total env hC ext hE _ _ ρ) (fun _ _ => Errs.ok _)
 
 /-- what is left open for the bundled P-256 plug-in: python-ecdsa's `InvalidSharedSecretError` needs `d·Q = ∞` for a
 validated point `Q`, i.e. `n ∣ d`; that no decryptor's private scalar does this is the group law (C17) -/
@@ -58,14 +59,14 @@ theorem p256_eccTotal (ext : List Bec2.Encryptor) (h : NoInfiniteSecret ext) : B
   · subst h1; rfl
   · subst h1; exact absurd he (h s d hd pub)
 
-theorem readBec2_total_p256 (ext : List Bec2.Encryptor) (h : NoInfiniteSecret ext) (chk : Bool) (text : Text.Str) :
-    Total (Entry.readBec2 P256.env ext chk text) :=
-  readBec2_total P256.env aes_cryptoTotal ext (p256_eccTotal ext h) chk text
+theorem readBec2_total_p256 (ext : List Bec2.Encryptor) (h : NoInfiniteSecret ext) (chk : Bool) (text : Text.Str)
+    (ρ : Bytes) : Total (Entry.readBec2 P256.env ext chk text ρ) :=
+  readBec2_total P256.env aes_cryptoTotal ext (p256_eccTotal ext h) chk text ρ
 
 /-- without private ECC keys on offer (none, public-only, customer-key, security-code decryptors) nothing is left open -/
 theorem readBec2_total_p256_noPriv (ext : List Bec2.Encryptor) (h : ∀ s d, Bec2.Encryptor.eccPriv s d ∉ ext)
-    (chk : Bool) (text : Text.Str) : Total (Entry.readBec2 P256.env ext chk text) :=
-  readBec2_total_p256 ext (fun s d hd => absurd hd (h s d)) chk text
+    (chk : Bool) (text : Text.Str) (ρ : Bytes) : Total (Entry.readBec2 P256.env ext chk text ρ) :=
+  readBec2_total_p256 ext (fun s d hd => absurd hd (h s d)) chk text ρ
 
 example : ∀ s d, Bec2.Encryptor.eccPriv s d ∉
     [Bec2.Encryptor.eccPub 0 [], Bec2.Encryptor.csc [1, 2], Bec2.Encryptor.custKey [] [] 0] := by
